@@ -53,12 +53,17 @@ def err_kind(v):
 
 def fold(ev, fn, args):
     """fold and classify: ('ok', value) | ('err', kind) | ('panic', what) | ('opaque', term)"""
+    ev.lossy = []
     try:
         r = ev.call_fn(fn, args)
     except H.Panic as p:
         return ("panic", "%s (line %s)" % (p.what, p.line))
     except H.Budget:
         return ("opaque", "budget")
+    if getattr(ev, "lossy", None):
+        # a loop was skipped, an early return was lost under an undecided condition, a local was mutated by an opaque
+        # callee: whatever came out is not the function's value
+        return ("opaque", "not foldable: " + ev.lossy[0])
     if is_err(r):
         return ("err", err_kind(r))
     if H.has_sym(r):
